@@ -119,6 +119,7 @@ Inductive log_item :=
 
 Inductive sched_item :=
 | SWrite (w : N) (size : N)   (* the actor dequeues Write w; [size] = encoded entry size *)
+| SWriteFF (w : N) (size : N) (* the same for a write_fire_and_forget message (ack_tx = None) *)
 | SFlush                      (* the actor runs flush_group_commit (end of a batch) *)
 | STruncate (t : N)           (* the actor dequeues TruncateUpTo { streamed_up_to_timestamp: t } *)
 | SShutdown.                  (* the actor dequeues Shutdown: final flush_group_commit (the
@@ -266,14 +267,15 @@ Definition ack (st : state) (w : N) (ok : bool) : state :=
         (if ok then w :: s_ok st else s_ok st) (if ok then s_err st else w :: s_err st)
         (LAck w ok :: s_log st) (s_io st) (s_halt st) (s_over st) (s_panic st) (s_released st).
 
-(* handle_message_always, arm Write (every write of the model carries an ack channel) *)
-Definition handle_write (cfg : config) (st : state) (w size : N) : state :=
+(* handle_message_always, arm Write; [acked] = the message carries an ack channel
+   (write_durable) or not (write_fire_and_forget) *)
+Definition handle_write (cfg : config) (st : state) (w size : N) (acked : bool) : state :=
   let st := if c_max_entries cfg <=? s_since st then set_over st else st in
   let '(st, r) := rot_append cfg st w size in
   match r with
-  | ROk => State (s_store st) (s_cur st) (s_seq st) (s_force st) (s_pending st ++ [w]) (s_since st + 1)
+  | ROk => State (s_store st) (s_cur st) (s_seq st) (s_force st) (if acked then s_pending st ++ [w] else s_pending st) (s_since st + 1)
                  (s_ok st) (s_err st) (s_log st) (s_io st) (s_halt st) (s_over st) (s_panic st) (s_released st)
-  | RErr => ack st w false
+  | RErr => if acked then ack st w false else st
   | RHalt | RPanic => st
   end.
 
@@ -362,7 +364,8 @@ Definition truncate (st : state) (t : N) : state :=
 Definition step (cfg : config) (st : state) (ev : sched_item) : state :=
   if s_halt st then st else
   match ev with
-  | SWrite w size => handle_write cfg st w size
+  | SWrite w size => handle_write cfg st w size true
+  | SWriteFF w size => handle_write cfg st w size false
   | SFlush => flush st
   | SShutdown => shutdown st
   | STruncate t => truncate st t
